@@ -129,6 +129,24 @@ def fam_renames(g):
     yield from g.some_edits(n_ai=(1, 3), n_human=(0, 1))
     yield from g.commit_all()
     files = g.w.tracked_files(g.repo)
+    big = [f for f in files if len(split_lines(g.w.read(g.repo, f) or "")) >= 4]
+    if big and rng.random() < 0.3:
+        # what rename DETECTION pairs up: a file is deleted and, in the same commit, an agent writes a new file
+        # that keeps most of its lines and adds some (git-ai must treat the new file as new whatever diff.renames says)
+        f = rng.choice(big)
+        old_lines = split_lines(g.w.read(g.repo, f))
+        from .. import gen
+        new_lines = list(old_lines)
+        for _ in range(rng.randint(1, 3)):
+            new_lines.insert(rng.randint(0, len(new_lines)), gen.new_line(rng, g.ex))
+        newname = "rw%d_%s" % (g.msg_n, f.replace("/", "_"))
+        g.ex.probe("rename.rewrite_as_new_file")
+        yield g.git("rm", "-q", f)
+        yield {"op": "edit", "who": g.pick_session(), "files": {newname: gen.join_lines(new_lines)}, "dt": g.dt(),
+               "dt2": 20, "desc": {"kind": "rewrite_as_new_file", "pos": "any", "who": "ai"}}
+        yield g.git("add", "-A")
+        yield g.git("commit", "-q", "-m", g.msg(), check=True)
+        return
     if files:
         f = rng.choice(files)
         # (git mv does not create directories: move within the tree that exists)
@@ -192,10 +210,11 @@ class C09(C02):
                 "partial", "reset_recommit"]
     quick_runs, thorough_runs = 300, 5000
     quick_budget_s, thorough_budget_s = 170, 1800
-    rule = ("one run = one history family (plain commits by several sessions, renames with and without edits, rebase, "
+    rule = ("one run (12% in a SHA-256 repository) = one history family (plain commits by several sessions, renames with and "
+            "without edits, blocks copied / moved between two files written by one commit, rebase, "
             "cherry-pick, merge, squash merge, amend, partial commits, reset+recommit); at every commit and at the end, for "
             "every clean tracked text file and four drawn option sets out of {none, -L a,b, -L a,+n, two -L ranges, -L a,, "
-            "-M, -C, --root, --first-parent, --ignore-rev <sha>}: git-ai blame --json == (git blame --line-porcelain with "
+            "-M, -C, -C -C, -C -C -C, -M -C, --root, --first-parent, --ignore-rev <sha>}: git-ai blame --json == (git blame --line-porcelain with "
             "the same options) overlaid with the raw notes through the independent parser (original line, original "
             "path); default text output agrees with JSON line by line and respects -L; --porcelain / --line-porcelain / "
             "--incremental name git's commit for every final line. distinct = digest of family x ops; non-trivial = AI "
